@@ -38,6 +38,10 @@ fn main() {
             let stop = a[5].parse::<u64>().ok();
             std::process::exit(checks::purity::sched_child(a[2].parse().unwrap_or(0), a[3].parse().unwrap_or(2), child, stop, a[6].parse().unwrap_or(200000)));
         }
+        "eval-fresh" if a.len() > 3 => {
+            imp::quiet_panics();
+            std::process::exit(checks::purity::eval_fresh_child(&a[2], a[3].parse().unwrap_or(0)));
+        }
         "parse-fresh" if a.len() > 2 => {
             imp::quiet_panics();
             std::process::exit(checks::lang::parse_fresh_child(&a[2]));
